@@ -393,6 +393,10 @@ def run(ctx):
     ctx.rule("R-18.7", "an accepted configuration reaches the weight function whole: calc_cv_vector receives interfaces, moves, lambda_minus_one and cap from the configuration at every call site, each in its own parameter (shared with C06 R-6.8)", floor=4)
     from .shared import callsite_config_agreement
     ctx.attempt(callsite_config_agreement, ctx, "R-18.7", "calc_cv_vector", ["interfaces", "moves", "lambda_minus_one", "cap"], " (an accepted configuration with interface_cap initialises with weights computed against the last interface: the initial paths are weighted differently from every later path, silently)")
+    ctx.rule("R-18.8", "a restart file is accepted only when every path it names as live is stored on disk: the restart branch of setup_config refuses (returns None) when any traj.txt of current.active is missing (shared with C08 R-8.4)", floor=2)
+    from . import c08 as _c08
+    from .shared import RuleProxy as _RP18
+    ctx.attempt(_c08.r84, _RP18(ctx, "R-18.8", " (an accepted restart configuration then dies in load_paths_from_disk with an AssertionError instead of being refused up front)"))
     ctx.attempt(r181, ctx)
     ctx.attempt(r182, ctx)
     ctx.attempt(r183, ctx)
@@ -404,6 +408,8 @@ def run(ctx):
 
 
 VARIANTS = [
+    B("c18-restart-refused-only-when-all-paths-missing", SETUP, '        for act in config["current"]["active"]:\n            store_p = os.path.join(load_dir, str(act), "traj.txt")\n            if not os.path.isfile(store_p):\n                return None\n', '        stored = [os.path.isfile(os.path.join(load_dir, str(act), "traj.txt")) for act in config["current"]["active"]]\n        if not any(stored):\n            return None\n', "R-18.8", control=True, why="seeded C18_k"),
+    K("c18-keep-restart-refused-when-any-path-missing", SETUP, '        for act in config["current"]["active"]:\n            store_p = os.path.join(load_dir, str(act), "traj.txt")\n            if not os.path.isfile(store_p):\n                return None\n', '        stored = [os.path.isfile(os.path.join(load_dir, str(act), "traj.txt")) for act in config["current"]["active"]]\n        if not all(stored):\n            return None\n'),
     B("c18-cap-lands-on-lambda-minus-one", REPEX, "                lambda_minus_one=self.config[\"simulation\"][\"tis_set\"][\n                    \"lambda_minus_one\"\n                ],\n                cap=self.cap,", "                lambda_minus_one=self.cap,", "R-18.7", control=True, why="seeded C18_j"),
     B("c18-engine-collection-breaks", SETUP, "            if engine not in unique_engines:\n                unique_engines.append(engine)", "            if engine in unique_engines:\n                break\n            unique_engines.append(engine)", "R-18.6", control=True, why="seeded C18_g"),
     K("c18-keep-engine-collection-continue", SETUP, "            if engine not in unique_engines:\n                unique_engines.append(engine)", "            if engine in unique_engines:\n                continue\n            unique_engines.append(engine)"),
